@@ -9,6 +9,11 @@ CONSTANTS
  WriteBeforeUnlock = TRUE
  LockOnLast = TRUE
  RegisterInInit = TRUE
+ ReleaseStaticLate = TRUE
+ TagOwnedUntilDone = TRUE
+ BoundedDynWait = TRUE
+ MaxFaults = 1
+ MaxCrashes = 0
  Env <- LEnv
-INVARIANTS Explainable AtMostOneCreator OpenSeesCreatorSettings NoHalfInitialised LifetimeFollowsUsers RecreatableAfterLast ImplAtMostOneCreator ImplNoHalfInitialised ImplOpenSeesCreatorSettings ImplLifetimeFollowsUsers ImplQuiescentExact
+INVARIANTS Explainable AtMostOneCreator OpenSeesCreatorSettings NoHalfInitialised LifetimeFollowsUsers RecreatableAfterLast ImplAtMostOneCreator ImplNoHalfInitialised ImplOpenSeesCreatorSettings ImplLifetimeFollowsUsers ImplQuiescentExact ImplTagsFollowHandles
 PROPERTY Termination
